@@ -180,3 +180,32 @@ DERIVED = re.compile(r" as core::(fmt::Debug|clone::Clone|cmp::PartialEq|cmp::Pa
 
 def is_derived_impl(path):
     return bool(DERIVED.search(path))
+
+
+def guards(prog, path, bid, direct=False):
+    """conditions a block is control-dependent on: [(cond_expr, taken, switch_term)] where `taken`
+    is the switch value selecting the edge (int) or ('not', [values]) for the otherwise edge"""
+    from .mirlib import Expr
+    b = prog.bodies[path]
+    g = prog.cfg(path)
+    ex = Expr(prog, path)
+    out = []
+    deps = g.direct_control_deps(bid) if direct else g.control_deps(bid)
+    for a, s in sorted(deps):
+        t = b["blocks"][a]["term"]
+        if t["k"] != "switch":
+            out.append((("unknown", t["k"]), None, t))
+            continue
+        e = ex.operand(t["on"])
+        tg = t["targets"]
+        vals = t["values"]
+        taken = None
+        hits = [vals[i] for i in range(len(vals)) if tg[i] == s]
+        if s == tg[-1] and not hits:
+            taken = ("not", tuple(vals))
+        elif len(hits) == 1 and s != tg[-1]:
+            taken = hits[0]
+        else:
+            taken = ("multi", tuple(hits))
+        out.append((e, taken, t))
+    return out
